@@ -150,7 +150,7 @@ Lemma ph_field st nm bn : utf8_encode nm = Some bn -> bn <> [] ->
 Proof.
   intros Hb Hne. pose proof (utf8_encode_bytes nm bn Hb) as Hbytes. destruct keys_neutral as [Kn Kf].
   unfold parse_header_x.
-  rewrite (split_params_semi s_form_data form_data_nq false [] (fld st s_name nm bn) (fld st s_name nm bn) [])
+  rewrite (scan_semi s_form_data form_data_nq [] (fld st s_name nm bn) (fld st s_name nm bn) [])
     by (apply (scan_fld_last st s_name nm bn [] Kn Hbytes)).
   cbn [rev app]. rewrite raw_field_name by assumption. cbn [raw_params].
   destruct st; cbn [raw_key raw_val].
@@ -163,18 +163,18 @@ Proof.
 Qed.
 
 Lemma ph_file st nm bn st2 fn bf :
-  utf8_encode nm = Some bn -> bn <> [] -> utf8_encode fn = Some bf -> bf <> [] -> scan_ok st nm ->
+  utf8_encode nm = Some bn -> bn <> [] -> utf8_encode fn = Some bf -> bf <> [] ->
   exists d,
     parse_header_x (s_form_data ++ 59 :: fld st s_name nm bn ++ 59 :: fld st2 s_filename fn bf) = Ok (s_form_data, d)
     /\ dict_get s_name d = Some nm /\ dict_get s_filename d = Some fn.
 Proof.
-  intros Hb Hne Hb2 Hne2 Hs.
+  intros Hb Hne Hb2 Hne2.
   pose proof (utf8_encode_bytes nm bn Hb) as Hbytes. pose proof (utf8_encode_bytes fn bf Hb2) as Hbytes2.
   destruct keys_neutral as [Kn Kf].
   unfold parse_header_x.
-  rewrite (split_params_semi s_form_data form_data_nq false []
+  rewrite (scan_semi s_form_data form_data_nq []
              (fld st s_name nm bn ++ 59 :: fld st2 s_filename fn bf) (fld st s_name nm bn) [fld st2 s_filename fn bf])
-    by (apply (scan_fld_more st s_name nm bn [] _ _ _ Kn Hbytes Hs); apply (scan_fld_last st2 s_filename fn bf [] Kf Hbytes2)).
+    by (apply (scan_fld_more st s_name nm bn [] _ _ _ Kn Hbytes); apply (scan_fld_last st2 s_filename fn bf [] Kf Hbytes2)).
   cbn [rev app]. rewrite raw_field_name, raw_field_filename by assumption. cbn [raw_params].
   pose proof (ext_collapsed s_name nm bn Hb) as E1. pose proof (ext_collapsed s_filename fn bf Hb2) as E2.
   destruct st, st2; cbn [raw_key raw_val].
